@@ -224,6 +224,7 @@ def path_record(rng, b, E, method, kind, diagonal, use_default_graph):
             rec['raised'] = True
             return rec
     rec['sites'] = [[int(x) for x in s] for s in p.sites]
+    rec['secondary'] = secondary_ok(p)
     en = []
     for val in p.energy:
         if kind == 'exp':
@@ -233,6 +234,14 @@ def path_record(rng, b, E, method, kind, diagonal, use_default_graph):
             en.append(int(round(val)) if abs(val - round(val)) < 1e-9 else -999999)
     rec['energy'] = en
     return rec
+
+
+def secondary_ok(p):
+    """The derived read-outs of a Pathway agree with its sites / energies: total_energy = sum of the reported energies,
+    start_site / stop_site = first / last site."""
+    tot = float(sum(float(v) for v in p.energy))
+    return bool(abs(float(p.total_energy) - tot) <= 1e-9 * max(1.0, abs(tot)) and tuple(p.start_site) == tuple(p.sites[0])
+                and tuple(p.stop_site) == tuple(p.sites[-1]))
 
 
 def perc_record(rng, b, E, perc):
@@ -250,6 +259,7 @@ def perc_record(rng, b, E, perc):
            'sites': [], 'energy': [], 'wrapped': [], 'fracInCell': True, 'meta': {'percolate': perc}}
     if p is not None:
         rec['sites'] = [[int(x) for x in s] for s in p.sites]
+        rec['secondary'] = secondary_ok(p)
         rec['energy'] = [int(round(v)) if abs(v - round(v)) < 1e-9 else -999999 for v in p.energy]
         rec['wrapped'] = [[int(x) for x in s] for s in p.wrapped_sites()]
         fs = np.asarray(p.frac_sites())
@@ -334,6 +344,7 @@ def perc_record_fixed(b, E, peaks, perc):
            'sites': [], 'energy': [], 'wrapped': [], 'fracInCell': True, 'meta': {'percolate': perc, 'kind': 'channel+pocket'}}
     if p is not None:
         rec['sites'] = [[int(x) for x in s] for s in p.sites]
+        rec['secondary'] = secondary_ok(p)
         rec['energy'] = [int(round(v)) if abs(v - round(v)) < 1e-9 else -999999 for v in p.energy]
         rec['wrapped'] = [[int(x) for x in s] for s in p.wrapped_sites()]
         fs = np.asarray(p.frac_sites())
@@ -342,7 +353,7 @@ def perc_record_fixed(b, E, peaks, perc):
     return rec
 
 
-def npaths_record(rng, b, E, diagonal, quick_second=False):
+def npaths_record(rng, b, E, diagonal, quick_second=False, ends=None):
     import networkx as nx
     from fractions import Fraction
     from pymatgen.core import Lattice
@@ -353,6 +364,8 @@ def npaths_record(rng, b, E, diagonal, quick_second=False):
         return None
     i, j = rng.choice(len(free), size=2, replace=False)
     start, stop = free[i], free[j]
+    if ends is not None:
+        start, stop = np.array(ends[0]), np.array(ends[1])
     n = int(rng.integers(1, 5))
     fr = [Fraction(3, 20), Fraction(1, 4), Fraction(1, 2), Fraction(0, 1)][int(rng.integers(0, 4))]
     method = str(rng.choice(['dijkstra', 'bellman-ford', 'simple', 'default']))
